@@ -65,6 +65,8 @@ def gen(rng, i, tier):
         return mesgen.gen_boundary(rng, allow_irresolute=False)
     case = mesgen.gen_election(rng)
     case = mesgen.gen_config(rng, case, allow_irresolute=False)
+    if case["tb"] == "refuse":          # a refused tie leaves no record to examine: C02's subject
+        case["tb"] = "lexico"
     if case["solver"]:
         case["sat_mode"] = "profile"     # one pass through the solver per case
     return case
